@@ -512,7 +512,76 @@ class Gen:
 
 
 def generate(ch, P):
+    if P.get("ladder") and ch.chance(1, P["ladder"], "ladder"):
+        return generate_ladder(ch, P)
     return Gen(ch, P).program()
+
+
+def _cd(name, label, tmpl, injects=(), slots=()):
+    return {"name": name, "label": label, "cls": None, "slots": [list(s_) for s_ in slots], "default_slot": None,
+            "injects": [list(i_) for i_ in injects], "echo_id": False, "hooks": False, "tmpl_via": "template",
+            "js": None, "css": None, "media_js": [], "media_css": [], "tmpl": tmpl}
+
+
+def generate_ladder(ch, P):
+    """A dense family of DEEP provider / consumer compositions that random generation reaches only rarely: a ladder of
+    3-6 components, each level drawn from {provide k0 / k1, loop, `only`, next level as a direct child or inside a fill of
+    a pass-through component whose slot may itself sit inside a provider}, with a consumer of both keys at the bottom (and
+    optionally at every level). Plain data like any other program: the reference renderer predicts it."""
+    mode = ["django", "isolated"][ch.draw(2, "mode")]
+    levels = 3 + ch.draw(4, "ladder_levels")
+    n_tok = [0]
+
+    def tok():
+        n_tok[0] += 1
+        return f"t{n_tok[0]}"
+
+    comps = []
+    # two pass-through components: plain slot, and slot inside a provider of k0 / k1
+    pk = ["k0", "k1"][ch.draw(2, "pass_key")]
+    comps.append(_cd("c0", "L0", [["text", tok()], ["slot", "a", False, False, [], []]], slots=[["a", False, False, []]]))
+    comps.append(_cd("c1", "L1", [["provide", pk, [["pva", ["lit", "PASS"]]], [["slot", "a", False, False, [], []]]], ["text", tok()]],
+                     slots=[["a", False, False, []]]))
+    base = 2
+    for i in range(levels):
+        name = f"c{base + i}"
+        last = i == levels - 1
+        injects = []
+        if last or ch.chance(1, 3, "mid_consumer"):
+            injects = [["k0", True], ["k1", True]]
+        body = [["text", tok()]]
+        for k, _ in injects:
+            body.append(["var", f"{name}_inj_{k}"])
+        if not last:
+            nxt = f"c{base + i + 1}"
+            only = ch.chance(1, 3, "ladder_only")
+            call = ["comp", nxt, [], only, "none", [], False]
+            how = ch.weighted([3, 2, 2], "ladder_how")  # direct / in a fill of the plain pass-through / of the providing one
+            if how:
+                call = ["comp", ["c0", "c1"][how - 1], [], ch.chance(1, 4, "pass_only"), "fills",
+                        [["fill", ["lit", "a"], None, None, [call]]], False]
+            wrap = ch.draw(8, "ladder_wrap")
+            inner = [call]
+            if wrap & 1:
+                inner = [["provide", "k0", [["pva", ["lit", f"P{i}"]]], inner]]
+            if wrap & 2:
+                inner = [["for", f"x{i}", f"{name}_l", inner]]
+            if wrap & 4:
+                inner = [["provide", ["k1", "k0"][ch.draw(2, "ladder_key2")], [["pvb", ["lit", f"Q{i}"]]], inner]]
+            body += inner
+        comps.append(_cd(name, f"L{base + i}", body, injects=injects))
+    page = [["text", tok()]]
+    top = [["comp", f"c{base}", [], False, "none", [], False]]
+    pw = ch.draw(4, "ladder_page_wrap")
+    if pw & 1:
+        top = [["provide", "k0", [["pva", ["lit", "PAGE"]]], top]]
+    if pw & 2:
+        top = [["for", "xp", "pl", top]]
+    page += top
+    ctx = {"pa": "PA", "pb": "PB", "pl": ["e0", "e1"], "pn": ["a"], "pt": True, "pf": False,
+           "pds": [{"pva": "S1", "pvb": "S2"}, {"pvb": "S3", "pva": "S4"}]}
+    return {"mode": mode, "comps": comps, "page": page, "ctx": ctx, "py_entry": False, "page_wrap": 0,
+            "features": ["ladder"]}
 
 
 # ---------------------------------------------------------------------------------------------
